@@ -374,6 +374,22 @@ def mutate(wire, m):
                 _l, n2 = tlvref.dec_var(inner, n1, strict=False)
                 return tlvref.tlv(t0, inner[n1 + n2:])
         return wire
+    if m['t'] == 'insfront':
+        # an ignorable (unknown, non-critical) element right in front of ApplicationParameters (Interest) / of the Name
+        # (Data): outside every covered range, the packet means the same
+        try:
+            tree = tlv_tree(wire)
+        except tlvref.TlvError:
+            return wire
+        if len(tree) != 1 or tree[0]['t'] not in (0x05, 0x06) or not tree[0]['kids']:
+            return wire
+        kids = tree[0]['kids']
+        target = 0x24 if tree[0]['t'] == 0x05 else 0x07
+        idx = next((i for i, k in enumerate(kids) if k['t'] == target), None)
+        if idx is None:
+            return wire
+        kids.insert(idx, {'t': m.get('typ', 0xf0), 'v': bytes.fromhex(m.get('hex', '')), 'kids': None})
+        return tree_bytes(tree)
     if m['t'] == 'sigalt':
         # another byte string in the place of an ECDSA signature value that denotes the same or a related (r, s):
         # (r, n - s), non-minimal DER integers, a long-form DER length, r + n. Nothing but SignatureValue (and Lengths) changes.
@@ -530,7 +546,8 @@ class SigWorld(World):
             self.log('direct', fid=flow['id'], verdict=None, exc=exc_brief(e))
             return
         self.log('direct', fid=flow['id'], verdict=verdict,
-                 covered=b''.join(bytes(c) for c in (sig.signature_covered_part or [])))
+                 covered=b''.join(bytes(c) for c in (sig.signature_covered_part or [])),
+                 dcovered=b''.join(bytes(c) for c in (sig.digest_covered_part or [])))
 
     # ---- validators ---------------------------------------------------------------------------
     def _wrap_checker(self, flow, fe, role):
@@ -849,7 +866,7 @@ class SigWorld(World):
                                  f'{flow["signer"]} was accepted (mutation {flow.get("mutation")})')
         # (d') the verifier on its own (asked directly about the packet as received)
         for e in ev:
-            if e['k'] != 'direct' or not e.get('verdict'):
+            if e['k'] != 'direct' or e.get('verdict') is None:
                 continue
             flow = self.flows.get(e['fid'])
             if flow is None or flow.get('mutation') is None or flow.get('_recv') is None:
@@ -862,6 +879,22 @@ class SigWorld(World):
             if is_int and not _canonical_order(recv):
                 continue
             if recv.signed_portion is None or orig.signed_portion is None:
+                continue
+            # the ranges the parser reports, whether or not a front-end would have dropped the packet before any verifier saw
+            # it: judged for packets whose elements are the original's plus, at most, ignorable (unknown, non-critical) ones
+            o_types = [x[0] for x in orig.els]
+            r_types = [x[0] for x in recv.els if x[0] in o_types or not (x[0] >= 32 and x[0] % 2 == 0)]
+            if r_types == o_types and recv.sig_value is not None and e.get('covered') is not None:
+                if e['covered'] != recv.signed_portion:
+                    self.violate('C02', 'covered-bytes', f'{flow["signer"]}-{flow["dir"]}', 'parser-alone',
+                                 f'flow {e["fid"]}: signature_covered_part of the parsed packet ({len(e["covered"])} B) differs from the '
+                                 f'signed portion of the received wire ({len(recv.signed_portion)} B) (mutation {flow.get("mutation")})')
+                if is_int and recv.digest_portion is not None and e.get('dcovered') is not None \
+                        and e['dcovered'] != recv.digest_portion:
+                    self.violate('C02', 'digest-covered-bytes', f'{flow["signer"]}-{flow["dir"]}', 'parser-alone',
+                                 f'flow {e["fid"]}: digest_covered_part of the parsed packet differs from ApplicationParameters..end '
+                                 f'of the received wire (mutation {flow.get("mutation")})')
+            if not e['verdict']:
                 continue
             if recv.signed_portion != orig.signed_portion or recv.sig_value != orig.sig_value:
                 what = 'signed-portion' if recv.signed_portion != orig.signed_portion else 'signature-value'
@@ -920,6 +953,8 @@ def rand_mut(rng):
         return {'t': 'trunc', 'n': rng.randint(1, 400)}
     if x < 0.48:
         return {'t': 'set', 'off': rng.randint(0, 300), 'v': rng.choice([0, 1, 0x17, 0x16, 0xfd, 0xff, rng.randint(0, 255)])}
+    if 0.54 <= x < 0.56:
+        return {'t': 'insfront', 'typ': rng.choice([0xf0, 0xf2, 0x80, 0xfd00]), 'hex': rng.choice(['', '00', 'abcd'])}
     if 0.56 <= x < 0.58:
         return {'t': 'sigalt', 'how': rng.choice(['negs', 'negs', 'padr', 'pads', 'r_plus_n', 'longlen']), 'refix': True}
     if x < 0.58:
